@@ -392,11 +392,28 @@ func (r *Rel) Invert() Rel {
 //
 // This is the form stored in Schema.Rels.
 func (r *Rel) Normalize() Rel {
-	from := r.FromType + r.FromName
-	to := r.ToType + r.ToName
-
-	if from < to || r.ToName == "" {
+	if r.ToName == "" {
 		return *r
+	}
+
+	// Compare the two ends as (type, name) pairs, not as concatenated
+	// strings, so that a relationship and its inverse always agree on
+	// which one comes first ("ab"+"c" and "a"+"bc" are different ends).
+	switch {
+	case r.FromType != r.ToType:
+		if r.FromType < r.ToType {
+			return *r
+		}
+	case r.FromName != r.ToName:
+		if r.FromName < r.ToName {
+			return *r
+		}
+	default:
+		// Same type and same name on both ends: only the
+		// cardinalities can differ.
+		if !r.ToOne || r.FromOne {
+			return *r
+		}
 	}
 
 	return r.Invert()
